@@ -230,7 +230,15 @@ def run_scenario(scn, validity=None, goal_fault=None, log=None, goal_ref=None):
     spec = scn["space"]
     space = build_space(spec)
     prob = scn["problems"][0]
-    world = World(spec, space, scn["worlds"][prob["world"]])
+    worlds = {}
+
+    def world_of(pi):
+        wi = scn["problems"][pi]["world"]
+        if wi not in worlds:
+            worlds[wi] = World(spec, space, scn["worlds"][wi])
+        return worlds[wi]
+
+    world = world_of(0)
     goal = Goal(space, dec(spec, prob["goal"]["target"]), prob["goal"]["radius"], goal_fault)
     if goal_ref is not None:
         goal_ref[0] = goal
@@ -246,18 +254,25 @@ def run_scenario(scn, validity=None, goal_fault=None, log=None, goal_ref=None):
     else:
         planner = PLANNERS[kind](p["max_distance"], p["goal_bias"], pd, cfg)
 
-    def default_validity(s):
-        a = world.valid(s)
-        if log is not None:
-            log.append((enc(s), a))
-        return a
+    def default_validity(w):
+        def cb(s):
+            a = w.valid(s)
+            if log is not None:
+                log.append((enc(s), a))
+            return a
+        return cb
 
-    cb = validity(world, log) if validity is not None else default_validity
     out = []
     for c in scn["calls"]:
         op = c["op"]
         try:
             if op == "Setup":
+                # every setup installs a NEW callback object, bound to the world of the problem
+                # the call names (the problem definition itself is fixed at construction)
+                world = world_of(c.get("problem", 0))
+                if log is not None:
+                    del log[:]
+                cb = validity(world, log) if validity is not None else default_validity(world)
                 planner.setup(cb)
                 out.append({"res": "ok"})
             elif op == "Construct":
@@ -328,8 +343,10 @@ def prm_soundness(scn, res, space, world, goal, log):
     """PRM paths: sound with respect to the Python callbacks (valid states, endpoints, spacing,
     every segment covered by accepted queries at the resolution)."""
     spec = scn["space"]
+    # `world` and `log` belong to the most recent setup: only the solves after it are judged
+    last_setup = max([i for i, c in enumerate(scn["calls"]) if c["op"] == "Setup"] or [0])
     for i, c in enumerate(res):
-        if c["res"] != "path":
+        if c["res"] != "path" or i < last_setup:
             continue
         p = c["path"]
         start = scn["problems"][0]["starts"][0]
@@ -584,10 +601,21 @@ def eval_c20(doc):
     return None, nontrivial, fired
 
 
+_DOCS, _PROP = [], ""
+
+
+def _eval_one(i):
+    try:
+        r, nt, aux = (eval_c19 if _PROP == "C19" else eval_c20)(_DOCS[i])
+        return ("ok", r, nt, aux)
+    except Exception as e:  # reported by the parent as a harness error (exit 2)
+        return ("error", f"{type(e).__name__}: {e}")
+
+
 def do_check(prop, tier):
     t0 = time.time()
     seed = int(os.environ.get("VERIF_SEED", "20261004"))
-    n = int(os.environ.get("VERIF_RUNS", "0")) or {("C19", "quick"): 1200, ("C19", "thorough"): 24000, ("C20", "quick"): 960, ("C20", "thorough"): 19200}[(prop, tier)]
+    n = int(os.environ.get("VERIF_RUNS", "0")) or {("C19", "quick"): 9600, ("C19", "thorough"): 192000, ("C20", "quick"): 7680, ("C20", "thorough"): 153600}[(prop, tier)]
     os.makedirs(os.path.join(VERIF, "target", "mirror"), exist_ok=True)
     mpath = os.path.join(VERIF, "target", "mirror", f"{prop}.jsonl")
     oxsim("gen-mirror", prop, str(n), mpath)
@@ -601,13 +629,24 @@ def do_check(prop, tier):
     mix = {}
     samples = []
     results_log = []
+    # scenarios are evaluated by forked worker processes (each with its own copy of the loaded
+    # extension and its own process-wide virtual clock) and merged in index order, so neither
+    # the worker count nor the scheduling of the workers influences any reported number
+    workers = int(os.environ.get("VERIF_WORKERS", "0")) or min(16, os.cpu_count() or 1)
+    global _DOCS, _PROP
+    _DOCS, _PROP = docs, prop
+    if workers > 1 and len(docs) > 32:
+        import multiprocessing as mp
+        with mp.get_context("fork").Pool(workers) as pool:
+            outcomes = pool.map(_eval_one, range(len(docs)), chunksize=8)
+    else:
+        outcomes = [_eval_one(i) for i in range(len(docs))]
     for i, doc in enumerate(docs):
         scn = doc["scenario"]
-        try:
-            r, nt, aux = (eval_c19 if prop == "C19" else eval_c20)(doc)
-        except Exception as e:
-            say(f"harness error: scenario {i}: {type(e).__name__}: {e}")
+        if outcomes[i][0] == "error":
+            say(f"harness error: scenario {i}: {outcomes[i][1]}")
             sys.exit(2)
+        _, r, nt, aux = outcomes[i]
         evaluations += 1
         results_log.append([i, r[0] if r else None, nt, aux])
         key = f"{scn['planner']['kind']}/{scn['space']['kind']}"
@@ -629,7 +668,7 @@ def do_check(prop, tier):
             samples.append({"scenario": scn, "rust_result": [c["res"] for c in doc["rust"]["calls"]]})
     wrapper_cases = 0
     if prop == "C19":
-        nw = 400 if tier == "quick" else 20000
+        nw = 2000 if tier == "quick" else 40000
         wpath = os.path.join(VERIF, "target", "mirror", "C19w.jsonl")
         oxsim("gen-wrappers", str(nw), wpath)
         for i, l in enumerate(open(wpath)):
